@@ -26,7 +26,19 @@ MANIFEST = dict(
         "(eval and evalDerivative; LinearModel and two-layer ConcatenatedModel; unweighted, weighted, mini-batch, with One/TwoNorm "
         "regularizer and masks, inside a CombinedObjectiveFunction) over random partitions and thread counts 1..B+1, "
         "AbstractLoss::eval(Data,Data), NegativeAUC, NegativeLogLikelihood, with in-harness oracles that recompute value and "
-        "gradient element by element and every loss value from its textbook definition."),
+        "gradient element by element and every loss value from its textbook definition. Object re-use (Lemmas/ObjReuse.lean, "
+        "Model/LossOut.lean, Model/ErrFnHist.lean): (a) output-object contract - for each of the nine derivative losses, for every "
+        "history of derivative calls (any losses, any shapes, any order) on ONE gradient object with arbitrary previous shape and "
+        "contents, every call leaves in the object what it leaves in a fresh one (outLoss_contract, runHistory_eq_fresh; from the "
+        "per-entry write lists of each loss and its clear() flag, the flags regenerated from the C++ on every run); (b) the model "
+        "object is scratch - for every history of eval/evalDerivative calls on several ErrorFunction objects (plain, weighted, "
+        "mini-batch, regularised; own loss and partition each) sharing one model, interleaved with foreign writes to the model, "
+        "copies, assignments, init() and thread-count changes, every evaluation is a function of (point, data set of the object) "
+        "(run_eq_runPure; rests on the regenerated fact that each entry point first writes the point into the model). Both are "
+        "exercised on the real code in every run (quick tier too): rderiv/rseq histories on one pre-filled gradient object (same and "
+        "different shapes, margins violated then satisfied and vice versa, one- and multi-column labels, rat and bit mode) and efh "
+        "histories (same point asked again after a foreign write), compared with the Lean models line by line and, by an in-harness "
+        "oracle, with the same call on freshly constructed objects (bit-equal on dyadic data)."),
   note=TRUST + "floating-point rounding is not modelled (theorems are about exact arithmetic; the step to doubles is the correspondence: "
        "data that is merged across threads is exact, exp/log/sqrt losses are compared bit for bit on one thread); hand-written "
        "models Model/Loss2.lean, Model/ErrFn.lean; the derivative theorems are per parameter (weight / offset of an optimised dense "
@@ -34,12 +46,19 @@ MANIFEST = dict(
        "excluded); NegativeAUC = pair count and the loss values' textbook definitions are oracles, not theorems; "
        "CrossValidationError is not reached (needs a trainer); the second-derivative overload of CrossEntropy and "
        "NegativeWilcoxonMannWhitneyStatistic are tied to the code only once findings F-C06-2/3 are fixed (until then the check "
-       "reports them as KNOWN-FINDING); open findings F-C06-1..4 in known_findings.json.",
+       "reports them as KNOWN-FINDING); the write lists of Model/LossOut.lean are hand-written (only the clear() flags and the "
+       "first-statement facts are regenerated); the batch a mini-batch evaluation draws is taken from the implementation's output "
+       "(the model gives the result for every batch); the fresh-object comparison is an oracle; open findings F-C06-5 (sequence "
+       "gradient appended to a re-used object), F-C06-6 (ErrorFunction::operator= not instantiable), F-C06-7 (copy constructor "
+       "leaves the regularizer uninitialised) in known_findings.json - until they are fixed no copy/asg steps are generated and the "
+       "rseq histories run in the recorded-defects run.",
   technique="Lean 4 proofs (algebraic identities over Rat, HasDerivAt over Real composed through the C04 chain theorems, thread-range tiling regenerated from the source) + exact/bit-exact differential correspondence with the C++ losses and the real ErrorFunction",
   design="§6 C06")
 FINISH = dict(level="proof",
               rule="cases = (loss, eval|deriv, batch of dyadic labels/predictions) for every loss class; (flavour, loss, model, partition, threads, "
-                   "data) for the real ErrorFunction; cost/auc/nll/discrete/sequence ops; exact-closed losses in rat mode, exp/log/sqrt "
+                   "data) for the real ErrorFunction; cost/auc/nll/discrete/sequence ops; histories of derivative calls on one gradient "
+                   "object (gset + 3..7 rderiv); histories of 4..20 steps on 1..6 ErrorFunction objects sharing a model (efh); "
+                   "exact-closed losses in rat mode, exp/log/sqrt "
                    "losses and everything divided by n in float mode; distinct = distinct op text; non-trivial = more than one row / batch")
 LAKE_TARGETS = ["SharkVerif.Props.C06", "drv_c06"]
 # Props/C06.lean states the property; the composition lemmas it imports are obligations of their own
